@@ -3063,7 +3063,8 @@ func (h *ResponseHeader) parseHeaders(buf []byte) (int, error) {
 				continue
 			}
 			if caseInsensitiveCompare(s.key, strConnection) {
-				if bytes.Equal(s.value, strClose) {
+				// Connection is a case-insensitive, comma-separated list of tokens.
+				if hasHeaderValue(s.value, strClose) {
 					h.connectionClose = true
 				} else {
 					h.connectionClose = false
@@ -3253,7 +3254,8 @@ func (h *RequestHeader) parseHeaders(buf []byte, blockEnd int) (int, error) {
 				continue
 			}
 			if caseInsensitiveCompare(s.key, strConnection) {
-				if bytes.Equal(s.value, strClose) {
+				// Connection is a case-insensitive, comma-separated list of tokens.
+				if hasHeaderValue(s.value, strClose) {
 					h.connectionClose = true
 				} else {
 					h.connectionClose = false
